@@ -399,6 +399,7 @@ func freeLLMNRServer(c *h.Ctx, lg *evLog, clients, per int, seed int64) error {
 			c.Fail("llmnr.Server.Serve", "stopped-answering", fmt.Sprintf("after %d clients had sent their queries and some datagrams that are no queries, a further query was sent three times and never answered (debug mode %v)", clients, debug), nil)
 		}
 	}
+	llmnrLifecycles(c)
 	stopPromptly(c, "llmnr.Server.Close", "network/llmnr.", func() {
 		srv.Close()
 		select {
@@ -408,6 +409,50 @@ func freeLLMNRServer(c *h.Ctx, lg *evLog, clients, per int, seed int64) error {
 		}
 	}, lg)
 	return nil
+}
+
+// llmnrLifecycles: Close is legal at any moment of a server's life -- before the socket exists, before Serve runs, twice. Whatever
+// the order, once Close has been called (again) after Serve started, Serve returns promptly.
+func llmnrLifecycles(c *h.Ctx) {
+	for _, order := range []string{"close,serve,close", "serve,close,close", "close,close,serve,close"} {
+		srv, err := llmnr.NewServer("udp4", []llmnr.Handler{})
+		if err != nil {
+			return
+		}
+		conn, err := net.ListenUDP("udp4", &net.UDPAddr{IP: net.IPv4(127, 0, 0, 1)})
+		if err != nil {
+			return
+		}
+		served := make(chan error, 1)
+		started := false
+		for _, step := range strings.Split(order, ",") {
+			switch step {
+			case "close":
+				done := make(chan struct{})
+				go func() { srv.Close(); close(done) }()
+				select {
+				case <-done:
+				case <-time.After(3 * time.Second):
+					c.Fail("llmnr.Server.Close", "stop-hang", "Close did not return within 3 s (call order "+order+")", nil)
+				}
+			case "serve":
+				srv.Conn = conn
+				srv.Address = conn.LocalAddr().(*net.UDPAddr)
+				started = true
+				go func() { served <- srv.Serve() }()
+				time.Sleep(20 * time.Millisecond)
+			}
+		}
+		c.Exec(len(order))
+		if started {
+			select {
+			case <-served:
+			case <-time.After(3 * time.Second):
+				c.Fail("llmnr.Server.Serve", "stop-hang", "Serve had not returned 3 s after the last Close (call order "+order+")", map[string]interface{}{"order": order})
+			}
+		}
+		conn.Close()
+	}
 }
 
 func freeLLMNRClient(c *h.Ctx, lg *evLog, queries int, seed int64) error {
